@@ -127,7 +127,7 @@ theorem rules_reject_filtered_generators (target iter c : PyAst) (cs : List PyAs
 
 /-! ## (c) the generated verification -/
 
-open AasVerif.Sdk in
+open AasVerif.SdkV in
 /-- **verify_exact, invariants of one value.** When no invariant raises, the errors reported for
 a value are exactly its falsified invariants: description verbatim, path empty (relative to
 the value). -/
@@ -137,14 +137,14 @@ theorem verify_invariants_exact (ρ : Env) (self : Val) (invs : List Inv)
       (p = [] ∧ ∃ inv ∈ invs, inv.description = d ∧ Falsified ρ self inv) :=
   verifyInvs_exact ρ self invs h d p
 
-open AasVerif.Sdk in
+open AasVerif.SdkV in
 /-- Verification raises only where evaluating an invariant itself raises, and then the same
 exception. -/
 theorem verify_raises_only_where_invariant_raises (ρ : Env) (self : Val) (invs : List Inv) (o : Out)
     (h : (verifyInvs ρ self invs).raised = some o) : ∃ inv ∈ invs, Raises ρ self inv o :=
   verifyInvs_raises ρ self invs o h
 
-open AasVerif.Sdk in
+open AasVerif.SdkV in
 /-- `verify` of an instance of a known class: its invariants first, then the properties in
 declaration order (the order of the emitted `transform_<Cls>`). -/
 theorem verify_instance_unfold (m : MM) (ρ : Env) (oid : Nat) (cn : Text) (fields : List (Text × Val))
@@ -154,7 +154,7 @@ theorem verify_instance_unfold (m : MM) (ρ : Env) (oid : Nat) (cn : Text) (fiel
         (VRes.seqAll (c.props.map (fun p => verifyField m ρ p fields))) := by
   simp [verify, verifyInst, hc]
 
-open AasVerif.Sdk in
+open AasVerif.SdkV in
 /-- **verify_exact.** When verification of an instance does not raise, `(d, p)` is reported
 exactly when the value reached at path `p` — a nested class instance or a value typed by a
 constrained primitive (`targetsInst` enumerates them in the order of the emitted code, list
@@ -166,7 +166,7 @@ theorem verify_exact (m : MM) (ρ : Env) (v : Val) (h : (verify m ρ v).raised =
       ∃ t ∈ targetsInst m v, t.path = p ∧ ∃ inv ∈ t.invs, inv.description = d ∧ Falsified ρ t.self inv :=
   verify_exact_targets m ρ v h d p
 
-open AasVerif.Sdk in
+open AasVerif.SdkV in
 /-- … and as lists: the errors are the reports of the targets, in order. -/
 theorem verify_errors_in_order (m : MM) (ρ : Env) (v : Val) (h : (verify m ρ v).raised = none) :
     (verify m ρ v).errors = allErrors ρ (targetsInst m v) :=
